@@ -197,7 +197,7 @@ Definition wf_vocab : item -> bool := wf_item layout_of registry load_switch tl_
 Definition norm : item -> item := norm_item layout_of.
 
 (* FULL statement (not proved):  forall x, wf_vocab' x = true -> exists b, enc x = Some b /\ dec b = Some (Ok (norm x))
-   for a class wf_vocab' that also admits source / endpoints / publicKey values, nil-like entries and objects nested
+   for a class wf_vocab' that also takes in source / endpoints / publicKey values, nil-like entries and objects nested
    deeper than 64.  Proved: exactly that statement for wf_vocab and nesting <= 64; see the head of this file. *)
 Theorem C01_roundtrip_partial : forall x,
   wf_vocab x = true -> ddepth x <= 64 ->
